@@ -34,6 +34,9 @@ var c04LitsSmall = []string{
 	"X = Y", "Y = fn:plus(X, 1)", "X != Y", "X < Y", "P = fn:pair(X, Y)", ":match_pair(P, X, Y)", "X = 1",
 }
 
+// focused set for 4-literal bodies in the quick tier
+var c04LitsFour = []string{"q(X)", "q(Y)", "r(X,Y)", "!s(X)", "!s(Y)", "!t(X,Y)", "!t(Y,X)", "X != Y", "X = Y"}
+
 var c04Transforms = []string{"", " |> let Y = fn:plus(X, 1)", " |> do fn:group_by(X), let Y = fn:count()", " |> let Z = fn:plus(X, 1)"}
 
 var c04EDBs = [][]string{
@@ -93,6 +96,19 @@ func c04(r *rt.Run) {
 		}
 	}
 	rec(c04Lits, 3, nil, make([]bool, len(c04Lits)))
+	{
+		// four literals over a focused 9-literal set: two negated atoms whose binders come later, in every order
+		n0 := len(clauses)
+		rec(c04LitsFour, 4, nil, make([]bool, len(c04LitsFour)))
+		kept := clauses[:n0]
+		for _, c := range clauses[n0:] {
+			body := c[strings.Index(c, ":-"):]
+			if strings.Count(stripParens(body), ",") >= 3 {
+				kept = append(kept, c)
+			}
+		}
+		clauses = kept
+	}
 	if r.Thorough() {
 		n0 := len(clauses)
 		rec(c04LitsSmall, 4, nil, make([]bool, len(c04LitsSmall)))
@@ -114,7 +130,7 @@ func c04(r *rt.Run) {
 		}
 		c04Clause(r, clauses[i])
 	})
-	r.Finish("every clause H :- L1..Lk (k<=3 over 28 literals, thorough adds k=4 over 16) in every order x 5 heads x 4 transform tails, analysed alone with declared EDB predicates; accepted ones evaluated on 3 EDBs; " +
+	r.Finish("every clause H :- L1..Lk (k<=3 over 28 literals, k=4 over a focused 9-literal set; thorough adds k=4 over 16) in every order x 5 heads x 4 transform tails, analysed alone with declared EDB predicates; accepted ones evaluated on 3 EDBs; " +
 		"non-trivial = accepted clause whose reference result is non-empty on some EDB; distinct by construction")
 }
 
